@@ -55,6 +55,8 @@ type Rec struct {
 	bs      *boc.BitString // non-nil when the target is a bare bit string
 	cell    *boc.Cell      // non-nil when the target is a cell
 	lastBin string
+	// SrcReads, when set, makes WriteBitString pass sources whose read cursor has been moved
+	SrcReads *rand.Rand
 }
 
 func (r *Rec) binNow() string {
@@ -144,6 +146,17 @@ func (r *Rec) WriteBitString(bits string) {
 	for _, c := range bits {
 		if err := src.WriteBit(c == '1'); err != nil {
 			panic(err)
+		}
+	}
+	// the nested bit string denotes all of its bits, wherever its own read cursor happens to be
+	if r.SrcReads != nil && len(bits) > 0 {
+		switch r.SrcReads.Intn(4) {
+		case 0:
+			src.ReadBit()
+		case 1:
+			src.ReadBits(r.SrcReads.Intn(len(bits) + 1))
+		case 2:
+			src.Skip(len(bits))
 		}
 	}
 	r.emit(ev.M{"k": "WriteBitString", "bits": bits}, r.t.WriteBitString(src))
@@ -288,7 +301,7 @@ type Opts struct {
 // Drive writes the recorded trace for one shard.
 func Drive(w *ev.Writer, o Opts) {
 	rng := rand.New(rand.NewSource(o.Seed*1000003 + int64(o.Shard)))
-	r := &Rec{W: w}
+	r := &Rec{W: w, SrcReads: rand.New(rand.NewSource(o.Seed + 77))}
 	thorough := o.Tier == "thorough"
 
 	// (1) fast-path grid: every cursor offset x every width, over patterned buffers.
